@@ -559,12 +559,13 @@ def load_preprocess(chk, idx):
             raise AnalysisError('QueryProcessor.preprocess: replace() with non-constant arguments')
     br = [n for n in ast.walk(pre) if isinstance(n, ast.If) and _src(n.test) == 'not case_sensitive']
     if len(br) != 1 or 'to_lower_term_sensitive' not in _src(br[0].orelse[0] if br[0].orelse else ast.Pass()) \
-            or '.lower()' not in _src(br[0].body[0]):
+            or not ('.lower()' in _src(br[0].body[0]) or 'to_lower_preserving_length(' in _src(br[0].body[0])):
         raise AnalysisError('QueryProcessor.preprocess: case_sensitive branch not recognised')
     tl = c.methods['to_lower_term_sensitive']
     s = _src(tl)
     arg = tl.args.args[0].arg
-    if ('list(%s.lower())' % arg) not in s or ('special_tokens_regex.finditer(%s)' % arg) not in s or 'apply_reverse' not in s \
+    lowered = ('list(%s.lower())' % arg) in s or ('list(QueryProcessor.to_lower_preserving_length(%s))' % arg) in s
+    if not lowered or ('special_tokens_regex.finditer(%s)' % arg) not in s or 'apply_reverse' not in s \
             or 'match.start()' not in s or 'match.group()' not in s:
         raise AnalysisError('QueryProcessor.to_lower_term_sensitive: lower-then-restore idiom not recognised')
     env = {}
@@ -586,9 +587,8 @@ def load_preprocess(chk, idx):
     def preprocess(text):
         for a, b in repl:
             text = text.replace(a, b)
-        chars = list(text.lower())
-        if len(chars) != len(text):
-            return None       # length-changing lower(): C01's business
+        chars = [ch.lower() if len(ch.lower()) == 1 else ch for ch in text]   # per-character lower-casing (C01 decides
+        # whether the library's own lower-casing keeps the length; the unit tables are compared modulo that)
         for m in rx_special.finditer(text):
             chars[m.start():m.end()] = list(m.group())
         return ''.join(chars)
